@@ -37,8 +37,9 @@ def main():
     d = tempfile.mkdtemp(prefix='seedchk_%s_' % name, dir='/tmp')
     ran = []
     try:
+        base = os.environ.get('SEED_BASE', '/repo')     # a checkout of the /repo commit the patch was made against
         for sub in ('cflib', 'lpslib', 'test'):
-            shutil.copytree(os.path.join('/repo', sub), os.path.join(d, sub), ignore=shutil.ignore_patterns('__pycache__'))
+            shutil.copytree(os.path.join(base, sub), os.path.join(d, sub), ignore=shutil.ignore_patterns('__pycache__'))
         for f in ('pyproject.toml', 'tox.ini'):
             if os.path.exists(os.path.join('/repo', f)):
                 shutil.copy(os.path.join('/repo', f), d)
